@@ -30,6 +30,7 @@ import lookup
 import match_counter
 import objtypes
 from objtypes import strict_equal
+import records
 from relation import SingleRowsIdentityRelation
 import sandbox
 import schema
@@ -905,6 +906,11 @@ class Engine(object):
             if not changes:
               changes = self._changes_map.setdefault(node, [])
             changes.append((row_id, previous, value))
+            col.set(row_id, value)
+          elif value is not previous and isinstance(value, (records.Record, records.RecordSet)):
+            # Equal records may still differ in the relation they carry: keep the one just computed,
+            # whose relation is current (the old one may name a table that has since been renamed).
+            # This is not a change of the cell's value.
             col.set(row_id, value)
 
         exclude.add(row_id)
